@@ -284,10 +284,13 @@ def confirm(pid, v, blobs=None):
         same = [x for x in vios if x['property'] == pid]
         if not same and not v.get('probe_log'):
             return {'status': 'not_reproduced', 'detail': 'concrete re-execution of the trace did not raise the violation again', 'path': path}
-        need = {'K-C07a': 'shrink_unused', 'K-C07b': 'grow_with_surplus', 'K-C06': 'close_overlap'}
-        kid = v.get('known')
-        if kid in need and need[kid] not in run_engine.last_flags: kid = None      # the concrete history does not play the known role
-        if same and any(x.get('known') != v.get('known') for x in same if x['what'][:60] == v['what'][:60]): kid = None
+        # known-finding roles are decided on the concrete history that was just replayed, never on the symbolic path
+        flags = run_engine.last_flags
+        kid = None
+        if pid == 'C07':
+            kid = 'K-C07a' if 'shrink_unused' in flags else ('K-C07b' if 'grow_with_surplus' in flags else None)
+        elif pid == 'C05' and v.get('known') == 'K-C05' and 'status().waiting is 0 while' in v['what']:
+            kid = 'K-C05'
         return {'status': 'confirmed', 'path': path, 'steps': len(native), 'known': kid}
     except ReplayError as e:
         return {'status': 'replay_error', 'detail': str(e)[:600]}
